@@ -1335,6 +1335,44 @@ def rule_f16(F):
     return r
 
 
+def rule_f17(F):
+    """A `match` works on a value of its own: the examinee is stored in a temporary (`assign_to_var`: an independent copy, owned by
+    the match) before the dispatch, on every path.  Matching a bare local in place looks like a saved clone, but the arm bindings are
+    taken out of the examinee only when their guard block runs - after the guards of earlier arms, which may assign to that local:
+    the old value is dropped and the next arm of the variant clones a payload that no longer exists (read after drop)."""
+    r = RuleResult("C03.F17", "match lowering: the examinee is copied into a temporary of the match before the dispatch, on every path", floor=1)
+    ps = [p for p in F.paths() if p.startswith("mir::lower::match_expr::") and hir.last(p) in ("r#match", "match") and "{closure" not in p]
+    if not ps:
+        r.missing("mir::lower::match_expr Lowerer::match")
+        return r
+    b = F.body(ps[0])
+    defs = mir.Defs(b)
+    exprs = [bi for bi, t in mir.calls(b) if hir.last(mir.callee(t) or "") == "expr" and "Lowerer" in (mir.callee(t) or "")]
+    sinks = [bi for bi, t in mir.calls(b) if hir.last(mir.callee(t) or "") in ("emit_switch", "match_case")]
+    if not exprs or not sinks:
+        r.missing("the lowering of the examinee / the dispatch in Lowerer::match")
+        return r
+    e0 = exprs[0]
+    stores = [bi for bi, t in mir.calls(b) if hir.last(mir.callee(t) or "") == "assign_to_var"
+              and any(mir.is_place_op(a) and e0 in mir.back_calls(b, defs, a[1][0]) for a in t["args"][1:])]
+    seen, work, leak = set(), list(mir.succs(b.blocks[e0])), False
+    while work:
+        x = work.pop()
+        if x in seen or x in stores:
+            continue
+        seen.add(x)
+        if x in sinks:
+            leak = True
+            break
+        work.extend(mir.succs(b.blocks[x]))
+    r.inst("examinee", {"stores_of_the_examinee": len(stores), "dispatch_reachable_without_the_copy": leak})
+    if leak or not stores:
+        r.bad(b.path, "examinee matched in place", relfile(b.file), b.blocks[e0]["term"].get("line") or b.line,
+              "a path from the lowering of the examinee to the dispatch does not store it in a temporary of the match: the arms read their bindings out of the matched variable itself, "
+              "after the guards of earlier arms (which may assign to it and thereby drop the old value) have run")
+    return r
+
+
 def rules(ctx):
     F = ctx["F"]
-    return [rule_f1(F), rule_f2(F), rule_f3(F), rule_f4(F), rule_f5(F), rule_f6(F), rule_f7(F), rule_f8(F), rule_f9(F), rule_f10(F), rule_f11(F), rule_f12(F), rule_f13(F), rule_f14(F), rule_f15(F), rule_f16(F)]
+    return [rule_f1(F), rule_f2(F), rule_f3(F), rule_f4(F), rule_f5(F), rule_f6(F), rule_f7(F), rule_f8(F), rule_f9(F), rule_f10(F), rule_f11(F), rule_f12(F), rule_f13(F), rule_f14(F), rule_f15(F), rule_f16(F), rule_f17(F)]
